@@ -79,6 +79,41 @@ class Ctx:
             self._defs[key] = c
         return c
 
+    def register_canon(self, *terms):
+        """Terms the spec uses for extents / widths: compound terms the program computes are replaced by one of these
+        when the path condition entails equality (keeps code and spec syntactically aligned)."""
+        c = self.ghost.setdefault("canon", [])
+        for t in terms:
+            if is_z3(t) and not any(t.eq(x) for x in c):
+                c.append(t)
+
+    def canon(self, t):
+        if not is_z3(t):
+            return t
+        t = z3.simplify(t)
+        if z3.is_int_value(t) or z3.is_const(t):
+            return t
+        cands = self.ghost.get("canon", [])
+        key = ("canon", t.sexpr(), len(self.pc), len(self.assumptions))
+        if key in self._defs:
+            return self._defs[key]
+        res = t
+        for c in cands:
+            if c.eq(t):
+                break
+            if c.sort() != t.sort():
+                continue
+            s_ = z3.Solver()
+            s_.set("timeout", 300)
+            s_.add(*self.assumptions)
+            s_.add(*self.pc)
+            s_.add(t != c)
+            if s_.check() == z3.unsat:
+                res = c
+                break
+        self._defs[key] = res
+        return res
+
     def quot(self, t, f):
         """(t div f, t mod f) for a divisor that is positive: named by fresh constants characterised linearly
         (t == q*f + r, 0 <= r < f) in addition to the div/mod terms themselves."""
@@ -196,11 +231,39 @@ class Ctx:
             raise SymRaise(etype, msg, self.cur_lineno)
 
     # -- obligations ----------------------------------------------------------------------------
-    def oblige(self, name, formula, kind="P", note=""):
+    @staticmethod
+    def _conjuncts(f, limit=24):
+        """flatten And / Implies(A, And(..)) so that each conjunct is discharged by its own (smaller) query"""
+        out = []
+
+        def walk(g, hyp):
+            if len(out) >= limit:
+                out.append(g if hyp is None else z3.Implies(hyp, g))
+                return
+            if z3.is_and(g):
+                for c in g.children():
+                    walk(c, hyp)
+            elif z3.is_implies(g) and z3.is_and(g.arg(1)):
+                h = g.arg(0) if hyp is None else z3.And(hyp, g.arg(0))
+                for c in g.arg(1).children():
+                    walk(c, h)
+            else:
+                out.append(g if hyp is None else z3.Implies(hyp, g))
+        walk(f, None)
+        return out
+
+    def oblige(self, name, formula, kind="P", note="", split=True):
         if formula is True:
             formula = z3.BoolVal(True)
         if formula is False:
             formula = z3.BoolVal(False)
+        if split and is_z3(formula):
+            parts = self._conjuncts(formula)
+            if len(parts) > 1:
+                last = None
+                for p_ in parts:
+                    last = self.oblige(name, p_, kind, note, split=False)
+                return last
         o = Oblig(name, kind, formula, self.assumptions + self.pc, self.cur_lineno, list(self.trace), note)
         o.defs = list(self.defs)
         self.obligs.append(o)
